@@ -845,7 +845,15 @@ class IoChan(Engine):
                 self._cnt(st, "to_df-lists-every-entry")
                 raise Violation("to_df-lists-every-entry", f"to_df({kw}) raised {exc_class(e)} for an array over {dims.letters} shape {shape}",
                                 cls="to_df-raises", **tags)
-            frame = frame_from_df(df0, dims, wide)
+            if not isinstance(df0, pd.DataFrame):
+                self._cnt(st, "to_df-lists-every-entry")
+                raise Violation("to_df-lists-every-entry", f"to_df({kw}) returned {type(df0).__name__}, not a table", cls="to_df-wrong", **tags)
+            try:
+                frame = frame_from_df(df0, dims, wide)
+            except (KeyError, ValueError, TypeError, IndexError, AttributeError) as e:
+                self._cnt(st, "to_df-lists-every-entry")
+                raise Violation("to_df-lists-every-entry", f"to_df({kw}) returned a table that cannot be read as labels and values of the array ({exc_class(e)})",
+                                cls="to_df-wrong", **tags)
             if nan_line:
                 # only the export is judged: every entry once under its labels, the NaN ones as empty cells (importing NaN is C12's matter)
                 self._cnt(st, "to_df-lists-every-entry")
